@@ -12,12 +12,14 @@ from gen import c13_layout as L
 
 PROPERTY = "C13"
 LEAN_MODULES = ["LccModel.Props.C13", "LccModel.Props.C13Scan", "LccModel.Props.C13Params", "LccModel.Props.C13Reload",
-                "LccModel.Props.C13Spelling", "LccModel.Props.C13Attrs"]
+                "LccModel.Props.C13Spelling", "LccModel.Props.C13Attrs", "LccModel.Props.C13Heads"]
 PROPS_FILES = ["LccModel/Props/C13.lean", "LccModel/Props/C13Scan.lean", "LccModel/Props/C13Params.lean",
-               "LccModel/Props/C13Reload.lean", "LccModel/Props/C13Spelling.lean", "LccModel/Props/C13Attrs.lean"]
+               "LccModel/Props/C13Reload.lean", "LccModel/Props/C13Spelling.lean", "LccModel/Props/C13Attrs.lean",
+               "LccModel/Props/C13Heads.lean"]
 NAMESPACES = {"LccModel/Props/C13.lean": "LccModel.C13", "LccModel/Props/C13Scan.lean": "LccModel.C13Scan",
               "LccModel/Props/C13Params.lean": "LccModel.C13Params", "LccModel/Props/C13Reload.lean": "LccModel.C13Reload",
-              "LccModel/Props/C13Spelling.lean": "LccModel.C13Spelling", "LccModel/Props/C13Attrs.lean": "LccModel.C13Attrs"}
+              "LccModel/Props/C13Spelling.lean": "LccModel.C13Spelling", "LccModel/Props/C13Attrs.lean": "LccModel.C13Attrs",
+              "LccModel/Props/C13Heads.lean": "LccModel.C13Heads"}
 DRIVER = "drivers/C13.lean"
 TRUSTED_BASE = [
     "Lean 4.33.0 kernel; axioms of the property theorems ⊆ {propext, Classical.choice, Quot.sound}",
@@ -209,6 +211,8 @@ def x_cls(c, flags, in_class=False):
         for pr in props:
             flags.add("prop:" + ("own" if label == "own" else "grandbase" if ".up" in label else "base" if label == "base0" else "mixin"))
             flags.add("getter:" + pr["getter"])
+    if L.inherited_tests(c):
+        flags.add("inherited-test")
     if c.get("ctor_fails"):
         flags.add("INVALID:ctor")
     if c.get("xrank") is not None:
@@ -218,7 +222,7 @@ def x_cls(c, flags, in_class=False):
     if dunder:
         flags.add("dunder-member")
     return {"name": name, "desc": c.get("desc") or _desc_from_name(name), "rank": c["rank"], "visible": _visible(c.get("vis"), c["attr"], flags), "fh": _fh(c.get("vis"), c["attr"], flags),
-            "meta": _meta_of(c), "origin": "class", "dunder": dunder, "tests": x_tests(c["tests"], flags, True),
+            "meta": _meta_of(c), "origin": "class", "dunder": dunder, "tests": x_tests(c["tests"] + L.inherited_tests(c), flags, True),
             "subs": [x_cls(s, flags, True) for s in sorted(c["subs"], key=lambda s: (s["rank"], s["attr"]))]}
 
 
@@ -657,13 +661,14 @@ def _j_mro(c):
     if not c.get("bases") and not c.get("own_props"):
         return None
     return [[{"name": p["name"], "kind": "property", "getter": _GETTER_CLASS[p["getter"]], "target": p.get("target") or ""} for p in props] +
-            [{"name": a, "kind": "plain"} for a in attrs] for _, props, attrs in L.mro_of(c)]
+            [{"name": a[1:], "kind": "member"} if a.startswith("=") else {"name": a, "kind": "plain"} for a in attrs]
+            for _, props, attrs in L.mro_of(c)]
 
 
 def _j_cls(c):
     return dict(_j_meta(c), attr=c["attr"], name=c.get("name"), desc=c.get("desc"), rank=c["rank"], vis=_j_vis(c.get("vis"), c["attr"]),
                 disabled=c.get("disabled") or False, ctor_fails=bool(c.get("ctor_fails")),
-                tests=[_j_test(t) for t in c["tests"]], subs=[_j_cls(s) for s in c["subs"]], mro=_j_mro(c))
+                tests=[_j_test(t) for t in c["tests"] + L.inherited_tests(c)], subs=[_j_cls(s) for s in c["subs"]], mro=_j_mro(c))
 
 
 def _j_module(m):
@@ -1038,6 +1043,12 @@ INHERITED = [
                                bases=[_base([_p("aa_prop", "value")], [], [_base([_p("client", "raise-runtime")])]),
                                       _base([_p("inner", "returns-suite", "refund")], ["TIMEOUT"])],
                                own_props=[_p("session", "raise-attr")])])]}},
+    # test methods inherited from a plain base class are members like the class's own (numbered before them), next to an
+    # inherited property that hands out one of them
+    {"entry": "dir", "defect": None, "layout": {"name": "suites", "noise": False, "dirs": [], "mods": [
+        _m("shop", classes=[_c("cart", [_t("add_item", pos=0), _t("remove_item", pos=1, disabled=True)],
+                               bases=[dict(_base([_p("entry_point", "returns-test", "add_item")]),
+                                           tests=[_t("base_smoke", pos=0, tags=["smoke"]), _t("inh_check", pos=1, vis="hidden")])])])]}},
 ]
 
 
